@@ -14,6 +14,7 @@ import (
 //   role=client|server mode=seq|conc script=<reaction>/<reaction>/...   one reaction per Ping call, in the order the peer receives the frames
 //   reaction = sequence of letters, each one Pong frame sent in answer (none = withheld):
 //     e exact payload        d exact payload twice          u an unsolicited Pong ("zz") first
+//     q a PING frame (not a Pong) carrying p: the peer pings with the same payload — it must be answered, not taken for the Pong
 //     z "0"+p   p "+"+p   s p+" "   l " "+p   t p+"0"   m empty   x "x"+p   c p with its last byte changed (xor 0x40)   h first half of p
 //   In conc mode all calls start together; the peer waits for all Ping frames and answers them in REVERSE order of receipt.
 // A call whose reaction contains no exact echo gets a short context (it must fail when that ends); the others a long one.
@@ -23,7 +24,7 @@ func init() {
 	suites["ping"] = &Suite{Gen: genPing, Run: runPing, Parallel: 40}
 }
 
-var pingForeign = []string{"z", "p", "s", "l", "t", "m", "x", "c", "h", "u"}
+var pingForeign = []string{"z", "p", "s", "l", "t", "m", "x", "c", "h", "u", "q"}
 
 func genPing(r *Rng, tier string, stat func(string)) []string {
 	var out []string
@@ -133,6 +134,10 @@ func runPing(kv map[string]string) string {
 	}
 	react := func(reaction string, p []byte) {
 		for i := 0; i < len(reaction); i++ {
+			if reaction[i] == 'q' {
+				send(rawFrame{Fin: true, Opcode: 9, Payload: append([]byte(nil), p...)})
+				continue
+			}
 			send(rawFrame{Fin: true, Opcode: 10, Payload: pongPayload(reaction[i], p)})
 			if reaction[i] == 'd' {
 				send(rawFrame{Fin: true, Opcode: 10, Payload: pongPayload('e', p)})
